@@ -12,7 +12,7 @@ FUNCTIONS = ['Geometry.par2fun/fun2par/fun2vec/vec2fun + shape properties of Con
 BOUNDS = {'sizes': '1D 2..6 nodes, 2D up to 3x3', 'KL': 'num_modes 1..n, decay/normalizer from a small set',
           'StepExpansion': 'n_steps 1..min(4,nodes) x {mean,max,min}, grids with offsets/spacings from a small family (concrete)',
           'batches': '2-3 columns', 'symbolic': 'parameter vectors, function values, every batch entry'}
-OUTSIDE = ['StepExpansion interval membership for grids outside the enumerated family (floating-point comparisons on a symbolic grid)',
+OUTSIDE = ['StepExpansion interval membership for grids that are neither in the enumerated concrete family nor linspace grids with <= 9 nodes / <= 4 steps (the bit-precise sub-check)',
            'rounding inside the DST kernels (linear-kernel stub, tolerance 1e-9 over |p|<=64)']
 ASSUMPTIONS = ['scipy.fftpack.dst/idst are linear in their data argument (validated each run)',
                'every float64 operation is read as the exact real operation']
@@ -49,6 +49,12 @@ def configs(tier, seed=0):
         for steps in range(1, min(5 if gname.startswith('drop') else 4, nodes) + 1):
             for proj in ['mean', 'max', 'min']:
                 out.append({'key': 'step/%s/s%d/%s' % (gname, steps, proj), 'geom': 'step', 'grid': gname, 'steps': steps, 'proj': proj})
+    # bit-precise float64 sub-check of the StepExpansion constructor on SYMBOLIC regular grids linspace(x0, xN, N):
+    # every node lies in exactly one step, for ALL float64 end points (|x| <= 1024); decided by z3 || cvc5 on QF_FP
+    fp = [(3, 2), (4, 2), (5, 2), (4, 3)] if tier == 'quick' else [(3, 2), (4, 2), (5, 2), (7, 2), (4, 3), (5, 3), (7, 3), (5, 4), (9, 4)]
+    for N, n in fp:
+        out.append({'key': 'step-fp/N%d/s%d' % (N, n), 'geom': 'step-fp', 'N': N, 'steps': n, 'validate': 0,
+                    'z3_s': 30 if tier == 'quick' else 120, 'cvc5_s': 200 if tier == 'quick' else 1500, 'stretch': n >= 4})
     return out
 
 
@@ -114,8 +120,120 @@ def documented_step_index(grid, n_steps):
     return idx
 
 
+class _FPNumpy:
+    """numpy as the geometry module sees it during the bit-precise run: grids of SymFP values survive normalisation,
+    the regularity test is taken as passed (the grid IS linspace), np.where records the membership terms instead of deciding them."""
+
+    def __init__(self, base, rec):
+        self._base, self._rec = base, rec
+
+    def __getattr__(self, n):
+        return getattr(self._base, n)
+
+    def array(self, obj, *a, **k):
+        from symx import fp
+        if isinstance(obj, fp.FPArr):
+            return obj
+        return self._base.array(obj, *a, **k)
+
+    def allclose(self, a, b, *args, **k):
+        from symx import fp
+        if any(isinstance(x, fp.SymFP) for x in np.asarray(a, dtype=object).ravel()) or any(isinstance(x, fp.SymFP) for x in np.asarray(b, dtype=object).ravel()):
+            return True
+        return self._base.allclose(a, b, *args, **k)
+
+    def where(self, cond, *xy):
+        from symx import fp
+        flat = np.asarray(cond, dtype=object).ravel()
+        if not xy and any(isinstance(x, fp.FPBool) for x in flat):
+            self._rec.append([x.t if isinstance(x, fp.FPBool) else bool(x) for x in flat])
+            return (np.arange(0),)
+        return self._base.where(cond, *xy)
+
+
+def fp_partition_terms(N, n):
+    """Run the real StepExpansion constructor on the symbolic grid linspace(x0, xN, N) (numpy's formula: start + k*step, last = stop)
+    -> (x0, xN, membership[step][node] z3 Bool terms, side conditions)."""
+    import z3
+    import cuqi
+    import cuqi.geometry._geometry as G
+    from symx import fp
+    x0, xN = z3.FP('fx0', fp.F64), z3.FP('fxN', fp.F64)
+    X0, XN = fp.SymFP(x0), fp.SymFP(xN)
+    step = (XN - X0) / (N - 1)
+    nodes = [X0] + [k * step + X0 for k in range(1, N - 1)] + [XN]
+    rec = []
+    saved = G.np
+    G.np = _FPNumpy(saved, rec)
+    try:
+        cuqi.geometry.StepExpansion(fp.fparr(nodes), n_steps=n)
+    finally:
+        G.np = saved
+    side = [z3.Not(z3.fpIsNaN(x0)), z3.Not(z3.fpIsNaN(xN)), z3.fpLT(x0, xN), z3.fpLEQ(z3.fpAbs(x0), fp.fpval(1024)), z3.fpLEQ(z3.fpAbs(xN), fp.fpval(1024)),
+            # a grid, not a cluster of rounding noise: spacing at least 2^-20
+            z3.fpGEQ(step.t, fp.fpval(2.0 ** -20))]
+    return x0, xN, rec, side
+
+
+def real_partition_ok(x0, xN, N, n):
+    """the real float code on the concrete grid: is every node in exactly one step?"""
+    import cuqi
+    g = cuqi.geometry.StepExpansion(np.linspace(x0, xN, N), n_steps=n)
+    counts = np.zeros(N, dtype=int)
+    for idx in g._indices:
+        counts[np.asarray(idx, dtype=int)] += 1
+    return bool(np.all(counts == 1)), counts.tolist()
+
+
+def replay(cfg, ob):
+    info = ob.get('info') or {}
+    if not str(info.get('fkey', '')).endswith('/fp-partition'):
+        return None
+    m = ob.get('model') or {}
+    if 'fx0' not in m or 'fxN' not in m:
+        return {'reproduced': False, 'why': 'no model values'}
+    try:
+        ok, counts = real_partition_ok(m['fx0'], m['fxN'], cfg['N'], cfg['steps'])
+    except Exception as e:
+        return {'reproduced': False, 'why': 'real constructor raised %r' % (e,)}
+    return {'reproduced': not ok, 'why': 'float64 run on linspace(%r, %r, %d) with %d steps: nodes per step count %s' % (m['fx0'], m['fxN'], cfg['N'], cfg['steps'], counts)}
+
+
+def run_step_fp(cfg, c):
+    import time
+    import z3
+    from symx import fp
+    N, n = cfg['N'], cfg['steps']
+    name = 'every node of linspace(x0, xN, %d) lies in exactly one of the %d steps, for ALL float64 x0 < xN (bit-precise)' % (N, n)
+    if c.concrete:
+        ok, counts = real_partition_ok(c.real('fx0'), c.real('fxN'), N, n)
+        c.prove(name, ok, info=fk(cfg, 'fp-partition'))
+        return
+    x0, xN, rec, side = fp_partition_terms(N, n)
+    c.prove('the constructor evaluates one membership test per step over all nodes', len(rec) == n and all(len(r) == N for r in rec), info=fk(cfg, 'fp-shape'))
+    if len(rec) != n:
+        return
+    bad = []
+    for k in range(N):
+        mem = [rec[i][k] for i in range(n)]
+        one = z3.Or(*[z3.And(mem[i], *[z3.Not(mem[j]) for j in range(n) if j != i]) for i in range(n)])
+        bad.append(z3.Not(one))
+    t0 = time.time()
+    verdict, model, info = fp.decide(side + [z3.Or(*bad)], [x0, xN], z3_timeout_s=cfg.get('z3_s', 30), cvc5_timeout_s=cfg.get('cvc5_s', 200))
+    ob = {'name': name, 'verdict': verdict, 'stage': 'qf_fp portfolio z3=%s cvc5=%s' % (info.get('z3'), info.get('cvc5')), 'ms': (time.time() - t0) * 1000.0,
+          'info': dict(fk(cfg, 'fp-partition'), stretch=bool(cfg.get('stretch'))), 'size': info.get('smt_chars')}
+    if verdict == 'sat':
+        ob['model'] = model
+        ob['_m'] = None
+    c.obligations.append(ob)
+    c.stats.solver_time += time.time() - t0
+    c.stats.solver_calls += 1
+
+
 def run(cfg, c):
     import cuqi
+    if cfg['geom'] == 'step-fp':
+        return run_step_fp(cfg, c)
     conc = c.concrete
     geom = make(cfg, conc)
     g = cfg['geom']
